@@ -2,7 +2,8 @@
 
 Encoded from MIR: Channel::basic_publish, Exchange::publish, ChannelHandle::{call_nowait, send_content},
 IoLoopHandle::{call_nowait, make_buf, send_content_header, send_content_body, send}, OutputBuffer push path and serialize(),
-Channel0Handle::new (payload limit).  Body = slice of symbolic 64-bit length, payload limit symbolic, chunk loop unrolled.
+Channel0Handle::{new, open_channel}, Channel::new.  The channel is obtained from a symbolic negotiated frame_max through the real
+constructors, the body is a slice of symbolic 64-bit length, the chunk loop is unrolled.
 """
 from iocommon import *
 from apireplay import *
@@ -11,22 +12,68 @@ from apireplay import *
 def body(ctx):
     prog = ctx.load(True)
     K = ctx.q(3, 6)
-    ctx.bound('chunk_loop_unroll_k', K)
-    ctx.assume(f"body length <= {K} x payload limit (loop bound; the exact multiples j x limit are inside); payload limit = negotiated frame_max - 8 with frame_max >= 4096, or unlimited (post-condition of C15)")
+    ctx.bound('body_frames_k', K)
+    ctx.assume(f"at most {K} body frames per publish (loop bound: with the implementation's chunking, body length <= {K} x (frame_max - 8); exact multiples are inside); frame_max is what TuneOk announced: 0 (no limit) or 4096..2^32-1 (post-condition of C15)")
     ctx.assume("body slices are at most isize::MAX - 64 bytes (language invariant for slices)")
     ctx.assume("header/body byte encoding is amq-protocol's; the frames' identity, channel, order and payload ranges are tracked")
     ex = io_executor(ctx, prog, unwind=K + 2, extra=cell_summaries())
     f = prog.method('Channel', 'basic_publish')
-    st = State()
-    cell, info = mk_channel(prog, st)
-    pm = info['payload_max']
-    st.pc.append(z3.Or(z3.And(z3.UGE(pm, 4088), z3.ULE(pm, 0xffffffff - 8)), pm == z3.BitVecVal(2 ** 64 - 1 - 8, 64)))
     viol = []
-    n = publish_once(ctx, prog, ex, f, st, 'p1', K, viol, second=True)
+    n = 0
+    for st in channels_via_negotiation(ctx, prog, ex, viol):
+        n += publish_once(ctx, prog, ex, f, st, 'p1', K, viol, second=True, prior=len(sent_frames(prog, st.roots['ch.info'])))
     ctx.extra['paths'] = n
     if viol and not ctx.violations:
         for v in viol[:5]:
             ctx.inconclusive.append(f"C02 counterexample without native replay: {v}")
+
+
+def channels_via_negotiation(ctx, prog, ex, viol):
+    """a public Channel obtained the way users get one - Channel0Handle::new(TuneOk.frame_max) -> open_channel -> Channel::new - so that
+    nothing here depends on where the implementation keeps or adjusts the limit. -> states with roots 'ch', 'ch.info'"""
+    f_new, f_open, f_chan = prog.method('Channel0Handle', 'new'), prog.method('Channel0Handle', 'open_channel'), prog.method('Channel', 'new')
+    fm = z3.BitVec('frame_max', 64)
+    st = State()
+    st.pc.append(z3.Or(fm == 0, z3.And(z3.UGE(fm, 4096), z3.ULE(fm, 0xffffffff))))
+    req, rep = Chan('alloc.req', 1, True), Chan('alloc.rep', 1, True)
+    rep.senders = 1
+    cid = z3.BitVec('ch.id', 16)
+    ntx, nrx = Chan('ch.tx', None, True), Chan('ch.reply', 2, True)
+    # the server's answer to Channel.Open is already queued
+    nrx.queue.append(Lazy('std::result::Result<ChannelMessage, errors::Error>', 'openreply'))
+    MVC = prog.types.variants('ChannelMessage')
+    CV = prog.types.variants('amq_protocol::protocol::AMQPClass')
+    MV = prog.types.variants('amq_protocol::protocol::channel::AMQPMethod')
+    base = f"openreply#0.0#{MVC.index('Method')}.0"
+    st.pc += [sym('openreply.disc', BV64) == 0, sym('openreply#0.0.disc', BV64) == MVC.index('Method'), sym(base + '.disc', BV64) == CV.index('Channel'),
+              sym(f"{base}#{CV.index('Channel')}.0.disc", BV64) == MV.index('OpenOk'), cid != 0]
+    newh = mk_struct(prog, 'IoLoopHandle', channel_id=Int(cid, 16), buf=Agg({0: ByteVec('ch.buf')}, 'OutputBuffer'), tx=SenderVal(ntx), rx=ReceiverVal(nrx))
+    rep.queue.append(mk_ok(newh))
+    common = mk_struct(prog, 'IoLoopHandle', channel_id=Int(0, 16), buf=Agg({0: ByteVec('h0.buf')}, 'OutputBuffer'), tx=Unit(), rx=Unit())
+    h0 = mk_struct(prog, 'IoLoopHandle0', common=common, set_blocked_tx=Unit(), alloc_chan_req_tx=SenderVal(req), alloc_chan_rep_rx=ReceiverVal(rep))
+    st.roots['ch.info'] = {'tx': ntx, 'rx': nrx, 'id': cid, 'frame_max': fm}
+    outs = []
+    k = 0
+    for (s1, c0) in ex.run(st, f_new, [h0, Int(fm, 64)]):
+        if isinstance(c0, Panic):
+            k += 1
+            m = ctx.decide(f"c02.setup.new#{k}", s1.pc, z3.BoolVal(False), group='a channel can be opened for every frame_max TuneOk can announce (no panic, no error when the server answers OpenOk)')
+            if m is not None:
+                viol.append(('Channel0Handle::new panics', str(c0)[:120], m.eval(fm, model_completion=True)))
+            continue
+        for (s2, r2) in ex.run(s1, f_open, [Ref(Cell(c0, 'ch0')), mk_option()]):
+            k += 1
+            ok = not isinstance(r2, Panic) and err_name(prog, r2) == 'Ok'
+            m = ctx.decide(f"c02.setup.open#{k}", s2.pc, z3.BoolVal(ok), group='a channel can be opened for every frame_max TuneOk can announce (no panic, no error when the server answers OpenOk)')
+            if m is not None:
+                viol.append(('open_channel fails', str(r2)[:120]))
+                continue
+            for (s3, chv) in ex.run(s2, f_chan, [r2.payloads[0].fields[0]]):
+                if isinstance(chv, Panic):
+                    continue
+                s3.roots['ch'] = Cell(chv, 'ch')
+                outs.append(s3)
+    return outs
 
 
 def publish_value(prog, name):
@@ -55,7 +102,7 @@ def publish_once(ctx, prog, ex, f, st, name, K, viol, second=False, prior=0):
         if isinstance(rv, Panic) and rv.kind == 'bound':
             continue
         frames = sent_frames(prog, info)[prior:]
-        L, pm, cid = h['len'], info['payload_max'], info['id']
+        L, fm, cid = h['len'], info['frame_max'], info['id']
         conds = []
         out = err_name(prog, rv)
         if isinstance(rv, Panic) or out != 'Ok':
@@ -77,20 +124,17 @@ def publish_once(ctx, prog, ex, f, st, name, K, viol, second=False, prior=0):
                               ms.fields[pf.index('mandatory')].b == h['mandatory'], ms.fields[pf.index('immediate')].b == h['immediate']]
                 hd = frames[1][1]
                 conds += [hd['class_id'].bv == 60, hd['body_size'].bv == L, z3.BoolVal(getattr(hd['props'], 'origin', None) == name + '.props')]
-                # body frames: contiguous from offset 0, each full except the last, none empty, none above the limit, total = L
+                # body frames: payloads contiguous from offset 0 and summing to len; every frame, its 8 bytes of framing included, within frame_max
                 off = b64(0)
                 for j, (vn, it, bv) in enumerate(frames[2:]):
                     plen = it['payload_len']
-                    conds += [z3.BoolVal(it['payload_src'] == name + '.body'), it['payload_off'] == off, z3.UGT(plen, 0), z3.ULE(plen, pm)]
-                    if j < nb - 1:
-                        conds.append(plen == pm)
-                    # framing: payload + 8 bytes never exceeds the negotiated frame_max (= limit + 8)
-                    conds.append(it['len'] == plen + 8)
+                    conds += [z3.BoolVal(it['payload_src'] == name + '.body'), it['payload_off'] == off, it['len'] == plen + 8,
+                              z3.Implies(fm != 0, z3.ULE(it['len'], fm))]
                     off = off + plen
                 conds.append(off == L)
-                conds.append((L == 0) == z3.BoolVal(nb == 0))
+                conds.append(z3.Implies(L == 0, z3.BoolVal(nb == 0)))
         m = ctx.decide(f"c02.{name}#{n}", s.pc, z3.And(*conds),
-                       group='publish = Basic.Publish(ticket 0, exchange, routing key, mandatory, immediate as given) + one header(class 60, body_size = len, the given properties) + body frames that are contiguous from 0, full except the last, never empty, never above the limit, summing to len; all on that channel, one frame per message, in this order',
+                       group='publish = Basic.Publish(ticket 0, exchange, routing key, mandatory, immediate as given) + one header(class 60, body_size = len, the given properties) + body frames whose payloads are contiguous from 0 and sum to len, each at most the negotiated frame_max long including its 8 bytes of framing, none for an empty body; all on that channel, one frame per message, in this order',
                        sample={'publish': name, 'frames': len(frames), 'body_frames': len(frames) - 2})
         if m is not None:
             viol.append((name, len(frames), out, ctx.explain(m, conds)))
@@ -104,39 +148,65 @@ def publish_once(ctx, prog, ex, f, st, name, K, viol, second=False, prior=0):
 
 
 def replay_publish(ctx, prog, s, info, h, name, claim, prior):
-    if prior:
+    if name != 'p1':
         return   # the first publish of the pair is replayed on its own
-    small = [z3.ULE(info['payload_max'], 5000), z3.ULE(h['len'], 20000), z3.ULE(info['id'], 1000)]
+    fm = info['frame_max']
+    small = [z3.ULE(fm, 5000), z3.ULE(h['len'], 20000), z3.ULE(info['id'], 1000)]
     r, m, _ = ctx.solve(list(s.pc) + small + [z3.Not(claim)])
     if r != 'sat':
-        r, m, _ = ctx.solve(list(s.pc) + [z3.Not(claim)])
+        r, m, _ = ctx.solve(list(s.pc) + [z3.ULE(h['len'], 1 << 24), z3.Not(claim)])
         if r != 'sat':
-            return
+            r, m, _ = ctx.solve(list(s.pc) + [z3.Not(claim)])
+            if r != 'sat':
+                return
     nm = Namer(m)
-    L, pm, cid = nm.i(h['len']), nm.i(info['payload_max']), nm.i(info['id'])
+    L, fmv, cid = nm.i(h['len']), nm.i(fm), nm.i(info['id'])
     if L > (1 << 24):
         ctx.inconclusive.append(f"C02 counterexample needs a {L}-byte body: not replayed natively")
         return
-    test = API_PRELUDE + f'''
+    test = API_PRELUDE + f"""
 #[test]
 fn verif_replay_c02() {{
     use amq_protocol::protocol::basic;
-    let (ch, rx, _tx) = mk_channel({cid}, {pm}usize);
+    // a channel obtained the way users get one: Channel0Handle::new(TuneOk.frame_max) -> open_channel -> Channel::new
+    let (mio_tx, rx) = mio_extras::channel::sync_channel(1 << 16);
+    let (rtx, rrx) = crossbeam_channel::bounded(2);
+    rtx.send(Ok(crate::io_loop::ChannelMessage::Method(AMQPClass::Channel(amq_protocol::protocol::channel::AMQPMethod::OpenOk(amq_protocol::protocol::channel::OpenOk {{ channel_id: "".into() }}))))).unwrap();
+    let (sb_tx, _sb_rx) = mio_extras::channel::sync_channel(1);
+    let (ar_tx, _ar_rx) = mio_extras::channel::sync_channel(1);
+    let (rep_tx, rep_rx) = crossbeam_channel::bounded(1);
+    rep_tx.send(Ok(IoLoopHandle::new({cid}, mio_tx, rrx))).unwrap();
+    let (c0tx, _c0rx) = mio_extras::channel::sync_channel(1);
+    let (_c0rtx, c0rrx) = crossbeam_channel::bounded(1);
+    let h0 = crate::io_loop::io_loop_handle::IoLoopHandle0::new(IoLoopHandle::new(0, c0tx, c0rrx), sb_tx, ar_tx, rep_rx);
+    let mut ch0 = Channel0Handle::new(h0, {fmv}usize);
+    let ch = crate::Channel::new(ch0.open_channel(None).unwrap());
+    let _ = raw_of(&rx);   // Channel.Open
     let body = mk_body({L});
     let r = ch.basic_publish({rs_str(nm.s(h['exchange']))}, crate::Publish {{ body: &body, routing_key: {rs_str(nm.s(h['rk']))}.into(), mandatory: {'true' if nm.b(h['mandatory']) else 'false'}, immediate: {'true' if nm.b(h['immediate']) else 'false'}, properties: Default::default() }});
     let got = raw_of(&rx);
-    // reference framing, encoded by amq-protocol
-    let mut want: Vec<Vec<u8>> = Vec::new();
-    want.push(enc(&AMQPFrame::Method({cid}, AMQPClass::Basic(basic::AMQPMethod::Publish(basic::Publish {{ ticket: 0, exchange: {rs_str(nm.s(h['exchange']))}.into(), routing_key: {rs_str(nm.s(h['rk']))}.into(), mandatory: {'true' if nm.b(h['mandatory']) else 'false'}, immediate: {'true' if nm.b(h['immediate']) else 'false'} }})))));
-    want.push(enc(&AMQPFrame::Header({cid}, 60, Box::new(amq_protocol::frame::AMQPContentHeader {{ class_id: 60, weight: 0, body_size: {L}, properties: Default::default() }}))));
-    for c in body.chunks({pm}usize) {{ want.push(enc(&AMQPFrame::Body({cid}, c.to_vec()))); }}
-    if !r.is_ok() || got != want {{
-        println!("VERIF-REPLAY-VIOLATION publish-framing ok={{}} messages={{}} want={{}} first_diff={{:?}}", r.is_ok(), got.len(), want.len(), got.iter().zip(want.iter()).position(|(a, b)| a != b));
-    }} else {{ println!("VERIF-REPLAY-OK"); }}
+    // property-level reading of what was handed to the I/O thread (encodings by amq-protocol)
+    let mut bad: Vec<String> = Vec::new();
+    if !r.is_ok() {{ bad.push(format!("result={{:?}}", r)); }}
+    let want_m = enc(&AMQPFrame::Method({cid}, AMQPClass::Basic(basic::AMQPMethod::Publish(basic::Publish {{ ticket: 0, exchange: {rs_str(nm.s(h['exchange']))}.into(), routing_key: {rs_str(nm.s(h['rk']))}.into(), mandatory: {'true' if nm.b(h['mandatory']) else 'false'}, immediate: {'true' if nm.b(h['immediate']) else 'false'} }}))));
+    let want_h = enc(&AMQPFrame::Header({cid}, 60, Box::new(amq_protocol::frame::AMQPContentHeader {{ class_id: 60, weight: 0, body_size: {L}, properties: Default::default() }})));
+    if got.len() < 2 || got[0] != want_m {{ bad.push("method-frame".into()); }}
+    if got.len() < 2 || got[1] != want_h {{ bad.push("header-frame".into()); }}
+    let mut cat: Vec<u8> = Vec::new();
+    for (i, f) in got.iter().enumerate().skip(2) {{
+        let n = f.len();
+        let ok = n >= 8 && f[0] == 3 && u16::from_be_bytes([f[1], f[2]]) == {cid} && u32::from_be_bytes([f[3], f[4], f[5], f[6]]) as usize == n - 8 && f[n - 1] == 0xCE;
+        if !ok {{ bad.push(format!("frame{{}}-not-a-body-frame-of-this-channel", i)); continue; }}
+        if {fmv}usize != 0 && n > {fmv}usize {{ bad.push(format!("frame{{}}-is-{{}}-bytes-frame_max-{fmv}", i, n)); }}
+        cat.extend_from_slice(&f[7..n - 1]);
+    }}
+    if cat != body {{ bad.push(format!("payloads-concatenate-to-{{}}-bytes-not-the-{{}}-byte-body", cat.len(), body.len())); }}
+    if body.is_empty() && got.len() > 2 {{ bad.push("body-frame-for-empty-body".into()); }}
+    if bad.is_empty() {{ println!("VERIF-REPLAY-OK"); }} else {{ println!("VERIF-REPLAY-VIOLATION publish-framing {{}}", bad.join(";").replace(' ', "_")); }}
     std::mem::forget(ch);
 }}
-'''
-    ctx.report('publish-framing', f"basic_publish(len={L}, payload limit={pm}) hands the I/O thread frames that break the claim", {'len': L, 'payload_max': pm, 'channel': cid}, test,
+"""
+    ctx.report('publish-framing', f"basic_publish(len={L}) on a channel of a connection with frame_max={fmv} hands the I/O thread frames that break the claim", {'len': L, 'frame_max': fmv, 'channel': cid}, test,
                inject_into='src/io_loop/channel_handle.rs', profiles=('dev',))
 
 
